@@ -20,7 +20,7 @@ KINDS = ("boxcar", "gaussian", "lorentzian")
 
 
 def REQUIRED(tier):
-    return ["responses_compared", "argmax_checks", "invariance_checks", "boxcar_recoveries", "kind:boxcar", "kind:gaussian", "kind:lorentzian", "len:not_fft_good", "pulse:wraps_around_end", "kernel_direct_unsorted_bank"]
+    return ["responses_compared", "argmax_checks", "invariance_checks", "boxcar_recoveries", "kind:boxcar", "kind:gaussian", "kind:lorentzian", "len:not_fft_good", "pulse:wraps_around_end", "kernel_direct_unsorted_bank", "long_series", "regime:uncentred_data_with_baseline", "invariance:offset_with_centring_off", "construction_after_refused_one"]
 
 
 def cases(tier, seed):
@@ -29,6 +29,8 @@ def cases(tier, seed):
         yield {"kind": "conv", "seed": int(seed) * 100003 + i}
     for i in range(max(8, n // 6)):
         yield {"kind": "boxcar", "seed": int(seed) * 100003 + i}
+    for i in range(max(24, n // 10)):
+        yield {"kind": "long", "seed": int(seed) * 100003 + i}
 
 
 def _good(n):
@@ -62,12 +64,38 @@ def oracle_convs(z, bank, L):
     return out
 
 
+def oracle_convs_fft64(z, bank):
+    """Same inner products through numpy's float64 FFT (circular cross-correlation over the data length): used for long series."""
+    n = z.size
+    Z = np.fft.rfft(z.astype(np.float64))
+    out = np.empty((len(bank), n))
+    for k, (T, ref) in enumerate(bank):
+        pad = np.zeros(n)
+        pad[: T.size] = T
+        h = np.roll(pad, -ref)
+        h = h - h.mean()
+        nrm = np.sqrt(np.sum(h ** 2))
+        if nrm:
+            h = h / nrm
+        out[k] = np.fft.irfft(Z * np.conj(np.fft.rfft(h)), n)
+    return out
+
+
+def _tol(z):
+    """float32 FFT error model, measured on the unchanged tree for n = 24..20000 with and without a baseline: the response error stays below
+    1.5e-6*||z - mean z|| + 1.2e-6*|mean z| (the DC level only leaks through rounding because every template is zero-mean); gate at 10x."""
+    z = np.asarray(z, dtype=np.float64)
+    return 1.5e-5 * max(1.0, float(np.linalg.norm(z - z.mean()))) + 1.5e-5 * abs(float(z.mean()))
+
+
 def run_case(case, ctx):
     from sigpyproc.core.filters import MatchedFilter
 
     rng = np.random.default_rng([case["seed"], 13])
     if case["kind"] == "boxcar":
         return _boxcar(case, ctx, rng)
+    if case["kind"] == "long":
+        return _long(case, ctx, rng)
     n = int(rng.choice([200, 211, 256, 509, 127, 96, int(rng.integers(24, 513))]))
     kind = str(rng.choice(KINDS))
     nbmax = int(rng.choice([4, 8, 16, 32]))
@@ -75,6 +103,7 @@ def run_case(case, ctx):
         nbmax //= 2
     spacing = float(rng.choice([1.5, 2.0, 1.2, 3.0]))
     x = rng.normal(size=n).astype(np.float32)
+    offset = float(np.random.default_rng([case["seed"], 132]).choice([0.0, 0.0, 100.0, 1e3, 1e4]))   # a baseline level under the noise
     pos = int(rng.choice([0, 1, n // 3, n - 3, int(rng.integers(0, n))]))
     w = int(rng.integers(1, max(2, nbmax)))
     wrap = bool(rng.random() < 0.35)
@@ -84,7 +113,10 @@ def run_case(case, ctx):
         ctx.count("pulse:wraps_around_end")
     else:
         x[pos : pos + w] += float(rng.uniform(3, 20))
-    one = dict(case, params={"n": n, "kind": kind, "nbins_max": nbmax, "spacing": spacing, "pos": pos, "w": w, "wrap": wrap})
+    if offset:
+        x = (x + np.float32(offset)).astype(np.float32)
+        ctx.count("data:baseline_offset")
+    one = dict(case, params={"n": n, "kind": kind, "nbins_max": nbmax, "spacing": spacing, "pos": pos, "w": w, "wrap": wrap, "offset": offset})
     ctx.evaluated()
     ctx.count(f"kind:{kind}")
     L = _good(n)
@@ -101,21 +133,53 @@ def run_case(case, ctx):
         ctx.count("variant:strided_input")
     one["params"].update(loc=loc_m, scale=scale_m)
     ctx.count(f"options:{loc_m}/{scale_m}")
+    refused = False
+    if orng.random() < 0.4:   # a construction with the same settings that the library must refuse (data shorter than the widest template) comes first
+        try:
+            MatchedFilter(x[: max(2, nbmax // 2)].copy(), loc_method=loc_m, scale_method=scale_m, temp_kind=kind, nbins_max=nbmax, spacing_factor=spacing)
+        except ValueError:
+            refused = True
+        except Exception:  # noqa: BLE001
+            pass
     try:
         mf = MatchedFilter(xin, loc_method=loc_m, scale_method=scale_m, temp_kind=kind, nbins_max=nbmax, spacing_factor=spacing)
     except Exception as exc:  # noqa: BLE001
         ctx.violation(f"raised:{kind}:{type(exc).__name__}@{exc_site(exc)}", fmt_exc(exc), one)
+        return
+    # the bank is fixed by (kind, nbins_max, spacing) alone: one template per width, whatever was constructed (or refused) before
+    if kind == "boxcar":
+        wexp = [1]
+        while True:
+            nw = int(max(wexp[-1] + 1, spacing * wexp[-1]))
+            if nw > nbmax:
+                break
+            wexp.append(nw)
+        nexp = len(wexp)
+    else:
+        nexp = int(np.ceil(np.log(nbmax) / np.log(spacing))) + 1
+    ctx.count("bank_size_checks")
+    if refused:
+        ctx.count("construction_after_refused_one")
+    wid = [float(t.width) for t in mf.temp_bank]
+    if len(mf.temp_bank) != nexp or np.asarray(mf.convs).shape[0] != nexp or len(mf.temp_widths) != nexp or not np.allclose(wid, np.asarray(mf.temp_widths, dtype=np.float64), rtol=1e-6) \
+            or (kind == "boxcar" and [int(v) for v in wid] != wexp):
+        ctx.violation(f"bank-incomplete:{kind}{':after-refused-construction' if refused else ''}",
+                      f"bank of {len(mf.temp_bank)} templates (widths {wid[:8]}), {np.asarray(mf.convs).shape[0]} response rows; (kind, nbins_max={nbmax}, spacing={spacing}) defines {nexp}", one)
         return
     z = np.asarray(mf.zscores.data, dtype=np.float64)
     bank = [(np.asarray(t.data, dtype=np.float64), int(t.ref_bin)) for t in mf.temp_bank]
     convs = np.asarray(mf.convs, dtype=np.float64)
     want = oracle_convs(z, bank, L)
     ctx.count("responses_compared", int(want.size))
-    tol = 1e-4 * max(1.0, float(np.linalg.norm(z)))
+    tol = _tol(z)
     if convs.shape != want.shape:
         ctx.violation(f"convs-shape:{kind}", f"{convs.shape} vs {want.shape}", one)
         return
     err = np.abs(convs - want)
+    ratio = err.max() / max(1.0, float(np.linalg.norm(z)))
+    ctx.count("err/|z|:" + ("<=1e-7" if ratio <= 1e-7 else "<=1e-6" if ratio <= 1e-6 else "<=1e-5" if ratio <= 1e-5 else "<=1e-4" if ratio <= 1e-4 else ">1e-4"))
+    if loc_m == "norm" and offset:
+        ctx.count("regime:uncentred_data_with_baseline")
     if err.max() > tol:
         k, t = (int(v) for v in np.unravel_index(np.argmax(err), err.shape))
         # diagnose common mis-constructions
@@ -136,15 +200,8 @@ def run_case(case, ctx):
     if not (0 <= on[0] <= on[1] <= n):
         ctx.violation(f"on-pulse-range:{kind}", f"on_pulse={on} outside [0,{n}]", one)
     # invariance under positive affine maps
-    for a, b in ((0.5, -7.0), (3.0, 1000.0), (100.0, 0.0)):
-        ctx.count("invariance_checks")
-        if loc_m == "norm" or scale_m == "norm":
-            break   # 'norm' switches the standardisation off: invariance is not claimed then
-        mf2 = MatchedFilter((a * x.astype(np.float64) + b).astype(np.float32), loc_method=loc_m, scale_method=scale_m, temp_kind=kind, nbins_max=nbmax, spacing_factor=spacing)
-        d = np.abs(np.asarray(mf2.convs, dtype=np.float64) - convs).max()
-        if d > 3e-3 * max(1.0, np.abs(convs).max()) * (1 + abs(b) / 100):
-            ctx.violation(f"affine-invariance:{kind}", f"convs change by {d:.3e} under x -> {a}*x+{b}", one)
-            break
+    if not _invariance(ctx, mf, x, offset, dict(loc_method=loc_m, scale_method=scale_m, temp_kind=kind, nbins_max=nbmax, spacing_factor=spacing), one):
+        return
     # the kernel itself on a bank in arbitrary order (mixed kinds, descending widths): each row must still be its own template's response
     from numba import typed
 
@@ -172,6 +229,73 @@ def run_case(case, ctx):
         ctx.nontrivial_case(one)
     if ctx.evaluations % 10 == 1:
         ctx.sample({"params": one["params"], "L": L, "ntemplates": len(bank), "snr": float(mf.snr), "peak_bin": int(mf.peak_bin), "max_err": float(err.max())})
+
+
+def _invariance(ctx, mf, x, offset, opts, one):
+    """Adding a constant never changes the responses (templates are zero-mean, whatever the centring option); a positive scaling does not
+    either unless the scale estimate is switched off."""
+    from sigpyproc.core.filters import MatchedFilter
+
+    convs = np.asarray(mf.convs, dtype=np.float64)
+    z = np.asarray(mf.zscores.data, dtype=np.float64)
+    x64 = x.astype(np.float64)
+    zc = float(np.linalg.norm(z - z.mean()))
+    s_est = float(np.linalg.norm(x64 - x64.mean())) / zc if zc > 0 else 1.0
+    cmax = max(1.0, float(np.abs(convs).max()))
+    support = max(int(np.asarray(t.data).size) for t in mf.temp_bank)
+    for a, b in ((0.5, -7.0), (3.0, 1000.0), (100.0, 0.0), (1.0, 1.0e4), (1.0, -1.0e3)):
+        if a != 1.0 and opts["scale_method"] == "norm":
+            continue
+        ctx.count("invariance_checks")
+        if opts["loc_method"] == "norm" and b:
+            ctx.count("invariance:offset_with_centring_off")
+        mf2 = MatchedFilter((a * x64 + b).astype(np.float32), **opts)
+        d = np.abs(np.asarray(mf2.convs, dtype=np.float64) - convs).max()
+        # rounding a*x+b to float32: half an ulp of the level per sample, in z units, spread over a template (l1 <= sqrt(support)) and through the scale estimate
+        q = 6e-8 * (abs(a * offset + b) / (a * s_est) + 10.0)
+        tol_d = _tol(z) + _tol(mf2.zscores.data) + 4.0 * (np.sqrt(support) + cmax) * q
+        if d > tol_d:
+            ctx.violation(f"affine-invariance:{opts['temp_kind']}{':centring-off' if opts['loc_method'] == 'norm' else ''}",
+                          f"responses change by {d:.3e} (> {tol_d:.1e}) under x -> {a}*x+{b} (n={x.size}, loc={opts['loc_method']}, scale={opts['scale_method']})", one)
+            return False
+    return True
+
+
+def _long(case, ctx, rng):
+    """Long series (thousands of bins): running-sum or accumulated-phase shortcuts lose precision only here."""
+    from sigpyproc.core.filters import MatchedFilter
+
+    n = int(rng.choice([4096, 5000, 3001, 8192]))
+    kind = str(rng.choice(KINDS))
+    nbmax = int(rng.choice([16, 32, 64]))
+    spacing = float(rng.choice([1.5, 2.0]))
+    loc_m = str(rng.choice(["median", "norm", "mean"]))
+    scale_m = str(rng.choice(["iqr", "mad", "std"]))
+    offset = float(rng.choice([0.0, 1e3, 1e4]))
+    x = (rng.normal(size=n) + offset).astype(np.float32)
+    pos, w = int(rng.integers(0, n)), int(rng.integers(1, nbmax))
+    x[(pos + np.arange(w)) % n] += np.float32(rng.uniform(5, 15))
+    one = dict(case, params={"n": n, "kind": kind, "nbins_max": nbmax, "spacing": spacing, "pos": pos, "w": w, "offset": offset, "loc": loc_m, "scale": scale_m})
+    ctx.evaluated(); ctx.count("long_series"); ctx.count(f"kind:{kind}")
+    opts = dict(loc_method=loc_m, scale_method=scale_m, temp_kind=kind, nbins_max=nbmax, spacing_factor=spacing)
+    try:
+        mf = MatchedFilter(x, **opts)
+    except Exception as exc:  # noqa: BLE001
+        ctx.violation(f"raised:{kind}:{type(exc).__name__}@{exc_site(exc)}", fmt_exc(exc), one)
+        return
+    z = np.asarray(mf.zscores.data, dtype=np.float64)
+    bank = [(np.asarray(t.data, dtype=np.float64), int(t.ref_bin)) for t in mf.temp_bank]
+    convs = np.asarray(mf.convs, dtype=np.float64)
+    want = oracle_convs_fft64(z, bank)
+    ctx.count("responses_compared", int(want.size))
+    if loc_m == "norm" and offset:
+        ctx.count("regime:uncentred_data_with_baseline")
+    if convs.shape != want.shape or np.abs(convs - want).max() > _tol(z):
+        ctx.violation(f"response-values:{kind}:long-series{':centring-off' if loc_m == 'norm' else ''}",
+                      f"n={n}: max |response - inner product| = {np.abs(convs - want).max() if convs.shape == want.shape else 'shape'} > {_tol(z):.1e} (baseline {offset}, loc={loc_m})", one)
+        return
+    if _invariance(ctx, mf, x, offset, opts, one):
+        ctx.nontrivial_case(one)
 
 
 def _boxcar(case, ctx, rng):
